@@ -36,6 +36,19 @@ CONSTITUENTS = {
     "squeeth": {"open_deposit_mint": "atomic"},
 }
 
+# public write methods whose signatures take `Decimal | float` amounts: an operation flagged "float" hands its Decimal arguments
+# over as floats (outermost call only; calls the method makes on itself or on other markets are not touched)
+FLOAT_API = {
+    "uni": ("add_liquidity", "add_liquidity_by_tick", "add_liquidity_by_value", "collect_fee", "buy", "sell", "swap"),
+    "aave": ("supply", "withdraw", "borrow", "repay"),
+    "squeeth": ("open_deposit_mint", "open_deposit_mint_by_collat_rate", "deposit", "burn_and_withdraw", "buy_squeeth", "sell_squeeth"),
+    "deribit": ("deposit", "withdraw", "buy", "sell"),
+    "gmx1": ("buy_glp", "sell_glp"),
+    "gmx2": ("deposit", "withdraw"),
+}
+FLOAT_BROKER = ("swap_by_from", "swap_by_to", "subtract_from_balance")
+FLOAT_OPS = ("uni", "aave", "sq", "deribit", "gmx1", "gmx2", "broker")
+
 BASE_PRICE = {"WETH": 1800.0, "ETH": 1800.0, "WBTC": 29000.0, "BTC": 29000.0, "BTC.B": 29000.0, "USDC": 1.0, "USDC.E": 1.0, "USDT": 1.001,
               "DAI": 0.999, "MIM": 1.0, "LINK": 7.3, "WMATIC": 0.57, "WAVAX": 29.0}
 SAME = {"ETH": "WETH", "BTC": "WBTC", "BTC.B": "WBTC"}  # same asset under another name: same path
@@ -350,7 +363,11 @@ def generate(seed: int, tier: str = "quick") -> dict:
             for o in block:
                 o = dict(o)
                 o["bar"], o["phase"] = b, PHASES[ph]
+                if o["op"].split(".")[0] in FLOAT_OPS and rf.random() < 0.1:
+                    o["float"] = True  # the documented `Decimal | float` signature taken at its word
                 program.append(o)
+    if any(o.get("float") for o in program):
+        faults.append({"kind": "float_arguments"})
     return {"property": ID, "seed": seed, "world": world, "program": program, "faults": faults, "opts": {"primary": primary.id, "entries": entries}}
 
 
@@ -425,6 +442,12 @@ class UnchangedOracle(Oracle):
         for name, m in sim.markets.items():
             for meth, kind in CONSTITUENTS.get(self.kinds[name], {}).items():
                 self._wrap(sim, m, meth, kind)
+        self.float_on, self.fdepth = False, 0
+        for name, m in sim.markets.items():
+            for meth in FLOAT_API.get(self.kinds[name], ()):
+                self._floatify(m, meth)
+        for meth in FLOAT_BROKER:
+            self._floatify(sim.broker, meth)
 
     def observe(self, sim):
         return OS.observe(sim, self.kinds)
@@ -453,6 +476,22 @@ class UnchangedOracle(Oracle):
             return res
 
         setattr(m, meth, wrapper)
+
+    def _floatify(self, obj, meth):
+        orig = getattr(obj, meth)
+        oracle = self
+
+        def wrapper(*a, **k):
+            if oracle.float_on and oracle.fdepth == 0:
+                a = tuple(float(x) if isinstance(x, Decimal) else x for x in a)
+                k = {n: (float(x) if isinstance(x, Decimal) else x) for n, x in k.items()}
+            oracle.fdepth += 1
+            try:
+                return orig(*a, **k)
+            finally:
+                oracle.fdepth -= 1
+
+        setattr(obj, meth, wrapper)
 
     def on_raise(self, sim, fr, exc, msg):
         now = self.observe(sim)
@@ -483,12 +522,16 @@ class UnchangedOracle(Oracle):
     def before_op(self, sim, op):
         self.cur_op = op
         self.judged_state = None
+        self.float_on, self.fdepth = bool(op.get("float")), 0
+        if self.float_on:
+            sim.count("fault:float_arguments")
         kind = "helper" if op["op"] in HELPER_OPS else "atomic"
         self.stack = [Frame(op["op"], kind, self.observe(sim), top=True)]
 
     def after_op(self, sim, op, outcome):
         fr = self.stack[0] if self.stack else None
         self.stack = []
+        self.float_on = False
         if fr is None:
             return
         eid = op.get("entry")
@@ -599,7 +642,8 @@ ASSUMPTIONS = [
     "Aave observation reads the market's own position book (scaled amount, flag) so that observing never warms or resets a memoised view",
     "worlds run at the 1-minute interval; an option market alone has hourly bars, next to a minutely market it is open on the hour only (closed-bar recipes); runs start on the hour when an option market is present (DESIGN section 5)",
     "a bar loop that dies outside an operation (e.g. in update()) is not a rejected operation and is only counted (probe run_crashed)",
-    "negative amounts that the code accepts (buy_glp, supply, deposit) are not rejections and therefore outside this property",
+    "a call the code accepts is not a rejection, whatever its arguments (negative amounts are refused since the validation fixes and are catalogue entries like any other)",
+    "about 10 % of the market and broker-swap operations hand their amounts over as floats instead of Decimals (the public signatures say `Decimal | float`; outermost call only); whatever such a call raises - a protocol error or a TypeError from mixed arithmetic - is a rejection and judged like one",
 ]
 LEVEL_TEXT = (
     "fault enumeration over a catalogue: every entry of the rejection catalogue (one recipe per operation x precondition x token that "
